@@ -62,7 +62,9 @@ def r1_reflected(ctx):
                     if not (isinstance(r, ast.Call) and dotted_name(r.func) == f"self._{op}" and len(r.args) == 2):
                         bad_shape.append(norm(r)[:80] if r is not None else None)
                         continue
-                    rows.setdefault(isq, set()).add((norm(r.args[0]), norm(r.args[1])))
+                    from ..flowexpr import reduce_ifexp
+                    val = lambda e, _i=isq: _i if norm(e) == f"isinstance({arg}, Quantity)" else None   # noqa: E731
+                    rows.setdefault(isq, set()).add((norm(reduce_ifexp(r.args[0], val)), norm(reduce_ifexp(r.args[1], val))))
             if unk or bad_shape or not rows.get(True) or not rows.get(False):
                 ctx.unrecognised(Q, f"Quantity.{refl}", "delegation", f"not `return self._{op}(a, b)` on every path ({(unk + bad_shape)[:1]})")
                 continue
@@ -73,7 +75,11 @@ def r1_reflected(ctx):
             ctx.check(order_ok, Q, f"Quantity.{refl}", "operand order handed to the shared implementation",
                       detail=sorted(rows[True] | rows[False]), expected=["self", "other"] if own_first else ["other", "self"])
             if order_ok:
-                ctx.check(rows == want, Q, f"Quantity.{refl}", "a plain number operand is wrapped into a quantity",
+                undecided = any("isinstance(" in t for i in rows for pair in rows[i] for t in pair)
+                if undecided:
+                    ctx.form(False, Q, f"Quantity.{refl}", "a plain number operand is wrapped into a quantity", detail={str(k): sorted(v) for k, v in rows.items()})
+                else:
+                  ctx.check(rows == want, Q, f"Quantity.{refl}", "a plain number operand is wrapped into a quantity",
                           detail={str(k): sorted(v) for k, v in rows.items()}, expected={str(k): sorted(v) for k, v in want.items()})
     ctx.floor("operator dunders", n, 8)
 
